@@ -204,7 +204,7 @@ func (f *failure) result() rp.Result {
 		at = " at " + fr[0]
 	}
 	return rp.Result{OK: false, Nontriv: true, Deviation: f.deviation,
-		What:     fmt.Sprintf("decoder %s: %s%s; input (%s, %d bytes) %s", f.dec, f.what, at, f.label, len(f.input), hexInput(f.input)),
+		What:     fmt.Sprintf("decoder %s:%s %s; input (%s, %d bytes) %s", f.dec, at, f.what, f.label, len(f.input), hexInput(f.input)),
 		Observed: map[string]interface{}{"decoder": f.dec, "stack": f.stack, "frames": fr}}
 }
 
